@@ -886,7 +886,7 @@ func TestVerifC38(t *testing.T) { //nolint:cyclop
 	}
 
 	// cases ≥ 2: generated values
-	n := kit.N(20000, 500000)
+	n := kit.N(100000, 1000000)
 	nTypes := len(plain) + 1 + len(stats)
 	for i := 2; i < n+2; i++ {
 		if !run.Want(i) {
